@@ -120,6 +120,29 @@ theorem split_roundtrip (hash sep id : List Char) (hh : hash.length = H) (hs : s
 theorem empty_sep_breaks_split :
     refId (customerOrderRef "0123456789abc".toList [] (orderId 1234)) = orderId 234 := by decide +kernel
 
+/-- every module that parses a reference carries the same hash length: `flumine/utils.py` (where references are built),
+    `order/process.py` (order stream), `markets/blotter.py` (cleared orders) and `strategy/strategy.py` (the hash itself);
+    the constants are regenerated from the source on every run, so this is re-checked against what the code says now -/
+theorem hash_lengths_agree :
+    Gen.blotterHashLength = H ∧ Gen.processHashLength = H ∧ Gen.strategyModHashLength = H := by decide
+
+/-- the cleared-orders path (`Blotter.process_cleared_orders`, live only): `customer_order_ref[STRATEGY_NAME_HASH_LENGTH + 1:]`
+    with the blotter module's constant recovers the order id, whatever single-character separator the order was created with -/
+theorem cleared_order_ref_recovers_id (hash sep id : List Char) (hh : hash.length = H) (hs : sep.length = 1) :
+    (customerOrderRef hash sep id).drop (Gen.blotterHashLength + 1) = id := by
+  rw [hash_lengths_agree.1]
+  exact (split_roundtrip hash sep id hh hs).2
+
+/-- ... so a cleared order is attached to exactly the order of that market that carries the id the reference was built from -/
+theorem cleared_attaches_to_its_order (i : Inst) (market : Nat) (hash sep id : List Char) (hh : hash.length = H) (hs : sep.length = 1) :
+    processCleared i market (customerOrderRef hash sep id) = getOrder i market id := by
+  unfold processCleared
+  rw [cleared_order_ref_recovers_id hash sep id hh hs]
+
+/-- splitting at the default separator instead (the round-6 seeded change C19-m7) loses every order created with another
+    separator: the reference holds no `-`, so the "last part" is the whole reference -/
+example : ("0123456789abc.1234".toList.splitOn '-').getLast? = some "0123456789abc.1234".toList := by decide +kernel
+
 /-! ### uniqueness -/
 
 theorem orderId_injective (n m : Nat) (h : orderId n = orderId m) : n = m := by
@@ -224,6 +247,28 @@ theorem second_update_finds_it (i : Inst) (market : Nat) (ref : List Char) (o : 
         simp
       simp only [this]
 
+/-- the order an order-stream update created is the one a later cleared order with the same reference is attached to -/
+theorem cleared_after_update_finds_it (i : Inst) (market : Nat) (ref : List Char) (o : KnownOrder)
+    (h : (processCurrent i market ref).2 = .created o) :
+    processCleared (processCurrent i market ref).1 market ref = some o := by
+  unfold processCleared
+  rw [hash_lengths_agree.1]
+  change getOrder (processCurrent i market ref).1 market (refId ref) = some o
+  have h2 := second_update_finds_it i market ref o h
+  generalize (processCurrent i market ref).1 = j at h2 ⊢
+  cases hg : getOrder j market (refId ref) with
+  | some x =>
+    have : (processCurrent j market ref).2 = .existing x := by
+      unfold processCurrent; simp only [hg]
+    rw [h2] at this
+    cases this; rfl
+  | none =>
+    exfalso
+    have : (processCurrent j market ref).2 ≠ .existing o := by
+      unfold processCurrent; simp only [hg]
+      cases hashesGet j.strategies (refHash ref) <;> simp
+    exact this h2
+
 /-- registering a further strategy takes effect for the next update (the table is not cached) -/
 theorem added_strategy_is_seen (i : Inst) (h : List Char)
     (hn : ∀ s ∈ i.strategies, s.hash ≠ h) : hashesGet (addStrategy i h).strategies h = some i.strategies.length := by
@@ -235,6 +280,13 @@ example : run [.add "0123456789abc".toList, .update 1 (customerOrderRef "0123456
                .update 1 (customerOrderRef "fffffffffffff".toList ['-'] (orderId 43)),
                .add "fffffffffffff".toList,
                .update 1 (customerOrderRef "fffffffffffff".toList ['-'] (orderId 43))]
-    = [.created ⟨1, orderId 42, 0⟩, .existing ⟨1, orderId 42, 0⟩, .dropped, .created ⟨1, orderId 43, 1⟩] := by decide +kernel
+    = [.resolved (.created ⟨1, orderId 42, 0⟩), .resolved (.existing ⟨1, orderId 42, 0⟩), .resolved .dropped,
+       .resolved (.created ⟨1, orderId 43, 1⟩)] := by decide +kernel
+
+/-- cleared orders: attached to the order created with a non-default separator; nothing for an order the instance never saw -/
+example : run [.add "0123456789abc".toList, .update 1 (customerOrderRef "0123456789abc".toList ['.'] (orderId 42)),
+               .cleared 1 (customerOrderRef "0123456789abc".toList ['.'] (orderId 42)),
+               .cleared 1 (customerOrderRef "0123456789abc".toList ['.'] (orderId 43))]
+    = [.resolved (.created ⟨1, orderId 42, 0⟩), .attached (some ⟨1, orderId 42, 0⟩), .attached none] := by decide +kernel
 
 end Flumine.C19
